@@ -3,6 +3,7 @@ import SJ.Proofs.Machine
 import SJ.Proofs.SerUtf8
 import SJ.Proofs.Write
 import SJ.Proofs.WriteBudget
+import SJ.Proofs.WriteTrace
 /-!
 # C13 — I/O failures surface as Io errors and never corrupt results
 -/
@@ -351,5 +352,119 @@ example : wtest 100 [.intr, .intr] (.short 1) [0x5b, 0x22, 0xc3, 0xa9, 0x5c, 0x2
 /-- a writer that claims 9 bytes of a 1-byte buffer: `&buf[9..]` panics -/
 example : (match toWriter 100 extI .compact (.seq none []) { policy := fun _ _ => .ok 9 } with
     | .ok (_, r) => r == .panic | .error _ => false) = true := by decide +kernel
+
+end SJ.Props.C13
+
+
+namespace SJ.Props.C13
+open SJ SJ.Model.Ser SJ.Model.Write SJ.Model.WriteTrace SJ.Proofs.Write
+
+/-- **C13 (writer, every program).** `Model.WriteTrace.serT` is `Model.Ser.ser` that keeps the buffers written before
+    the serializer's own error (a non-string or non-finite-float map key): it agrees with `ser` on programs that
+    serialise, ends in the same error otherwise, and `toWriterT` is `toWriter` on the former. -/
+theorem c13_trace_agrees (fuel : Nat) (ext : Ext) (fmt : Fmt) (p : SVal) (w : Writer) :
+    match ser ext fmt p FState.init with
+    | .ok r => serT ext fmt p FState.init = { bufs := r.bufs, res := .ok r.st } ∧
+        ∃ w' res, toWriter fuel ext fmt p w = .ok (w', res) ∧ (toWriterT fuel ext fmt p w).1 = w' ∧
+          (toWriterT fuel ext fmt p w).2 = (match res with | .ok => .ok | .io e => .io e | .hang => .hang | .panic => .panic)
+    | .error e => (serT ext fmt p FState.init).res = .error e ∧ toWriter fuel ext fmt p w = .error e := by
+  cases h : ser ext fmt p FState.init with
+  | error e => exact ⟨Proofs.WriteTrace.serT_err ext fmt h, by simp [toWriter, h]⟩
+  | ok r =>
+    have ht := Proofs.WriteTrace.serT_ok ext fmt h
+    refine ⟨ht, (w.runBufs fuel r.bufs).1, Res.ofOut (w.runBufs fuel r.bufs).2, by simp [toWriter, h], ?_, ?_⟩
+    · simp only [toWriterT, ht]; cases (w.runBufs fuel r.bufs) with | mk w' o => cases o <;> rfl
+    · simp only [toWriterT, ht]; cases (w.runBufs fuel r.bufs) with | mk w' o => cases o <;> rfl
+
+/-- **C13 (writer, every program).** For EVERY program — also one whose serialisation fails by itself after having
+    written something —, either formatter, every writer (any policy) and every `fuel`: let `t.bufs` be the buffers the
+    serializer writes (all of them, or those before its own error; `serT`). After `to_writer` the writer holds what it held
+    plus `bytes`, a prefix of `t.bufs.flatten` — the output a fault-free writer receives (`c13_writer_all_vec`) —; the
+    `write` calls are a run against the policy with no call after the first fatal answer; and the result is
+
+    * `Ok(())` only if the program serialises and everything was accepted;
+    * the serializer's own error only if every buffer written before it was accepted whole (no fatal answer);
+    * `Err(Error::io(e))` only with a proper prefix accepted, `e` being the error of the last `write` call (or
+      `WRITE_ALL_EOF` after `Ok(0)`), never `Interrupted`: **a writer that fails before the serializer's own error is
+      reached gets its error reported, not masked by the later one**;
+    * `hang` / `panic` as in `c13_write_all_spec`. -/
+theorem c13_writer_all (fuel : Nat) (ext : Ext) (fmt : Fmt) (p : SVal) (w : Writer) :
+    ∃ bytes new j, (toWriterT fuel ext fmt p w).1.accepted = w.accepted ++ bytes ∧
+      bytes <+: (serT ext fmt p FState.init).bufs.flatten ∧
+      (toWriterT fuel ext fmt p w).1.log = w.log ++ new ∧ (toWriterT fuel ext fmt p w).1.policy = w.policy ∧
+      Run w.policy w.log new ∧ NoFatal new.dropLast ∧
+      (toWriterT fuel ext fmt p w).1.handed = w.handed ++ (serT ext fmt p FState.init).bufs.take j ∧
+      match (toWriterT fuel ext fmt p w).2 with
+      | .ok => bytes = (serT ext fmt p FState.init).bufs.flatten ∧ NoFatal new ∧
+          ∃ r, ser ext fmt p FState.init = .ok r
+      | .ser e => bytes = (serT ext fmt p FState.init).bufs.flatten ∧ NoFatal new ∧
+          ser ext fmt p FState.init = .error e
+      | .io e => bytes.length < (serT ext fmt p FState.init).bufs.flatten.length ∧ e.isInterrupted = false ∧
+          ∃ c, new.getLast? = some c ∧ ((c.res = .ok 0 ∧ e = writeAllEof) ∨ c.res = .err e)
+      | .hang => bytes.length < (serT ext fmt p FState.init).bufs.flatten.length ∧ NoFatal new ∧ fuel ≤ new.length
+      | .panic => ∃ c n, new.getLast? = some c ∧ c.res = .ok n ∧ c.buf.length < n := by
+  obtain ⟨bytes, new, j, he, hp, hpost, hh, _, _⟩ := runBufs_spec fuel (serT ext fmt p FState.init).bufs w
+  have hagree := Proofs.WriteTrace.ser_agree ext fmt p FState.init
+  simp only [toWriterT]
+  generalize hrun : w.runBufs fuel (serT ext fmt p FState.init).bufs = wr at he hpost hh
+  obtain ⟨w', o⟩ := wr
+  cases o with
+  | ok =>
+    simp only at hpost ⊢
+    refine ⟨bytes, new, j, he.acc, hp, he.log, he.pol, he.run, fun c hc => hpost.2 c (List.dropLast_subset _ hc), hh, ?_⟩
+    cases hs : ser ext fmt p FState.init with
+    | ok r =>
+      rw [hs] at hagree; simp only [Proofs.WriteTrace.Agree] at hagree
+      simp only [hagree]; rw [hagree] at hpost; exact ⟨hpost.1, hpost.2, r, rfl⟩
+    | error e =>
+      rw [hs] at hagree; simp only [Proofs.WriteTrace.Agree] at hagree
+      simp only [hagree]; exact ⟨hpost.1, hpost.2, trivial⟩
+  | hang =>
+    simp only at hpost ⊢
+    exact ⟨bytes, new, j, he.acc, hp, he.log, he.pol, he.run, fun c hc => hpost.2.1 c (List.dropLast_subset _ hc), hh, hpost⟩
+  | err e =>
+    simp only at hpost ⊢
+    obtain ⟨hl, pre, c, hnew, hpre, hc⟩ := hpost
+    refine ⟨bytes, new, j, he.acc, hp, he.log, he.pol, he.run, by rw [hnew, List.dropLast_concat]; exact hpre, hh, hl, ?_,
+      c, by rw [hnew]; simp, ?_⟩
+    · rcases hc with ⟨_, rfl⟩ | ⟨_, h⟩
+      · rfl
+      · exact h
+    · rcases hc with h | ⟨h, _⟩
+      · exact .inl h
+      · exact .inr h
+  | panic =>
+    simp only at hpost ⊢
+    obtain ⟨pre, c, n, hnew, hpre, hc⟩ := hpost
+    exact ⟨bytes, new, j, he.acc, hp, he.log, he.pol, he.run, by rw [hnew, List.dropLast_concat]; exact hpre, hh,
+      c, n, by rw [hnew]; simp, hc⟩
+
+/-- **C13 (writer, every program): the fault-free output.** Into a `Vec<u8>` (any `fuel ≥ 1`) the vector ends up holding
+    `(serT …).bufs.flatten`, and the result is `Ok(())` or the serializer's own error. -/
+theorem c13_writer_all_vec (fuel : Nat) (ext : Ext) (fmt : Fmt) (p : SVal) :
+    (toWriterT (fuel + 1) ext fmt p Writer.vec).1.accepted = (serT ext fmt p FState.init).bufs.flatten ∧
+    (toWriterT (fuel + 1) ext fmt p Writer.vec).2 =
+      (match ser ext fmt p FState.init with | .ok _ => .ok | .error e => .ser e) := by
+  obtain ⟨h1, h2⟩ := runBufs_vec fuel (serT ext fmt p FState.init).bufs Writer.vec rfl
+  have hagree := Proofs.WriteTrace.ser_agree ext fmt p FState.init
+  simp only [toWriterT]
+  generalize hrun : Writer.vec.runBufs (fuel + 1) (serT ext fmt p FState.init).bufs = wr at h1 h2
+  obtain ⟨w', o⟩ := wr
+  simp only at h1 h2
+  subst h1
+  refine ⟨by simpa [Writer.vec] using h2, ?_⟩
+  cases hs : ser ext fmt p FState.init with
+  | ok r => rw [hs] at hagree; simp only [Proofs.WriteTrace.Agree] at hagree; simp only [hagree]
+  | error e => rw [hs] at hagree; simp only [Proofs.WriteTrace.Agree] at hagree; simp only [hagree]
+
+/-- `{"a":1, [2]:3}` — the second key is a sequence: `{`, `"a"`, `:`, `1`, `,` are written, then `key must be a string`.
+    A writer failing at the 4th byte reports its own error; a writer that takes everything sees the serializer's. -/
+def badKey : SVal := .map none [(.str [0x61], .int .u8 1), (.seq none [.int .u8 2], .int .u8 3)]
+example : (serT extI .compact badKey FState.init).bufs = [[0x7b], [0x22], [0x61], [0x22], [0x3a], [0x31], [0x2c]] ∧
+    ser extI .compact badKey FState.init = .error .keyMustBeAString := ⟨rfl, rfl⟩
+example : ((toWriterT 9 extI .compact badKey (Writer.budget 3 { kind := .other 7 })).1.accepted == [0x7b, 0x22, 0x61] &&
+    (toWriterT 9 extI .compact badKey (Writer.budget 3 { kind := .other 7 })).2 == .io { kind := .other 7 } &&
+    (toWriterT 9 extI .compact badKey Writer.vec).1.accepted == [0x7b, 0x22, 0x61, 0x22, 0x3a, 0x31, 0x2c] &&
+    (toWriterT 9 extI .compact badKey Writer.vec).2 == .ser .keyMustBeAString) = true := by decide +kernel
 
 end SJ.Props.C13
